@@ -162,7 +162,7 @@ pub fn run(seed: u64, thorough: bool) -> SysOut {
     let input_cell = filler[2099].clone();
 
     // ---- transactions -------------------------------------------------------------------
-    let n_tx = if thorough { 4000 } else { 400 };
+    let n_tx = shard_share(if thorough { 4000 } else { 400 });
     let mut txs: Vec<(TransactionView, Value)> = vec![];
     for ti in 0..n_tx {
         let mut deps: Vec<CellDep> = vec![];
